@@ -178,6 +178,8 @@ pub struct SimChain {
     /// height of the block *before* the first simulated block (wallet birthday - 1)
     pub base_height: u32,
     pub base_hash: [u8; 32],
+    /// percentage of generated blocks that carry a full serialized header (0 = none)
+    pub header_mode: u8,
     pub base: Frontiers,
     pub blocks: Vec<SimBlock>,
     /// transactions dropped by forks, eligible for re-mining on the new branch
@@ -317,7 +319,7 @@ pub struct TxSpec {
 impl SimChain {
     pub fn new(net: LocalNetwork, n_accounts: usize, base_height: u32, base: Frontiers, seed: u64) -> Self {
         let mut r = SubRng::new(mix(seed, 0xBA5E));
-        SimChain { net, n_accounts, base_height, base_hash: r.bytes32(), base, blocks: vec![], orphan_pool: vec![], gen: seed }
+        SimChain { net, n_accounts, base_height, base_hash: r.bytes32(), base, blocks: vec![], orphan_pool: vec![], gen: seed, header_mode: 0 }
     }
     pub fn tip(&self) -> u32 {
         self.base_height + self.blocks.len() as u32
@@ -420,8 +422,36 @@ impl SimChain {
         let height = self.tip() + 1;
         let prev = self.hash_at(height - 1).unwrap();
         let mut after = self.frontiers_at(height - 1).unwrap().clone();
-        let hash = r.bytes32();
+        let mut hash = r.bytes32();
         let mut cb = CompactBlock { height: height as u64, hash: hash.to_vec(), prev_hash: prev.to_vec(), time: 1_700_000_000 + height, ..Default::default() };
+        if self.header_mode > 0 && r.below(100) < self.header_mode as u64 {
+            // a block that carries its full serialized header (lightwalletd's other encoding): the block's
+            // identity and parent are then the header's; the redundant fields are empty or say the same
+            let mut solution = vec![0u8; 1344];
+            r.fill(&mut solution);
+            let hdr = zcash_primitives::block::BlockHeaderData {
+                version: 4,
+                prev_block: zcash_primitives::block::BlockHash(prev),
+                merkle_root: r.bytes32(),
+                final_sapling_root: r.bytes32(),
+                time: 1_700_000_000 + height,
+                bits: 0x1f07ffff,
+                nonce: r.bytes32(),
+                solution,
+            }
+            .freeze()
+            .expect("header");
+            let mut bytes = vec![];
+            hdr.write(&mut bytes).expect("header bytes");
+            hash = hdr.hash().0;
+            cb.header = bytes;
+            if r.below(2) == 0 {
+                cb.hash = vec![];
+                cb.prev_hash = vec![];
+            } else {
+                cb.hash = hash.to_vec();
+            }
+        }
         let mut outs = vec![];
         let mut spends = vec![];
         let mut cms: [Vec<[u8; 32]>; 3] = [vec![], vec![], vec![]];
